@@ -78,8 +78,9 @@ type WireEvent struct {
 }
 
 type wireExec struct {
-	enc  *json.Encoder
-	real bool
+	enc    *json.Encoder
+	real   bool
+	gaveUp bool // a real-time step of this scenario ran into its cap
 
 	mu        sync.Mutex
 	buf       []byte // octets the client has read and not yet parsed
@@ -182,8 +183,18 @@ func (x *wireExec) wait(cond func() bool) {
 		synctest.Wait()
 		return
 	}
-	deadline := time.Now().Add(8 * time.Second)
-	for !cond() && time.Now().Before(deadline) {
+	// (once a step of a scenario has run into the cap the scenario is lost - its observations are
+	// incomplete and the trace will be rejected; the remaining steps need not wait that long again)
+	cap := 8 * time.Second
+	if x.gaveUp {
+		cap = 100 * time.Millisecond
+	}
+	deadline := time.Now().Add(cap)
+	for !cond() {
+		if !time.Now().Before(deadline) {
+			x.gaveUp = true
+			return
+		}
 		time.Sleep(time.Millisecond)
 	}
 }
@@ -390,7 +401,7 @@ func pingID(b []byte) int {
 }
 
 func (x *wireExec) run(sc *WireScenario) {
-	x.buf, x.eof, x.delivered, x.hsDone, x.parsed, x.rdClosed = nil, false, nil, false, nil, false
+	x.buf, x.eof, x.delivered, x.hsDone, x.parsed, x.rdClosed, x.gaveUp = nil, false, nil, false, nil, false, false
 	x.real = sc.Real || sc.Role == "client"
 	type res struct {
 		p   wamp.Peer
